@@ -103,11 +103,23 @@ def rule_2(ctx):
                    f'{alias} is cast by {got and got.split(":")[-1]}, expected {target}')
     ctx.expect(set(table) == {XLT + a for a in CAST_KEYS_WANT}, node, 'TYPE_TO_CAST keys',
                f'cast table keys differ from the seven aliases: {sorted(k.split(":")[-1] for k in table if k)}')
-    # _validate consults the table first
+    # what _validate (interpreted as written) makes of a value for each alias: the class of the alias, by the conversion of the value's class
+    from . import values as V
     v = xm.func('_validate')
-    first = next((s for s in v.body if not isinstance(s, ast.Expr)), None)
-    ok = isinstance(first, ast.Assign) and any(isinstance(x, ast.Name) and x.id == 'TYPE_TO_CAST' for x in ast.walk(first.value))
-    ctx.expect(ok, v, '_validate dispatches on the cast table', '_validate does not look the annotation up in TYPE_TO_CAST first')
+    cases = [('XlNumber', V.text('3'), ('Number', 3)), ('XlNumber', V.boolean(True), ('Number', 1)), ('XlNumber', V.blank(), ('Number', 0.0)),
+             ('XlNumber', 4, ('Number', 4)), ('XlText', V.num(12), ('Text', '12')), ('XlText', V.boolean(False), ('Text', 'False')),
+             ('XlText', 'abc', ('Text', 'abc')), ('XlBoolean', V.num(0), ('Boolean', False)), ('XlBoolean', V.num(2), ('Boolean', True)),
+             ('XlBoolean', V.text('true'), ('Boolean', True)), ('XlAnything', 5, ('Number', 5)), ('XlAnything', 'x', ('Text', 'x')),
+             ('XlAnything', True, ('Boolean', True)), ('XlAnything', None, ('Blank', None))]
+    wrong = []
+    for alias, value, want in cases:
+        it = Interp(ctx.a, xm, {'t': Ref(XLT + alias) if alias != 'XlAnything' else None, 'v': value}, inline_pkg=True)
+        src = 'return _validate(func_xltypes.%s, v, "p")' % alias
+        out = it.run(ast.parse(src).body)
+        got = V.norm(out.value) if out.end == 'return' else (out.end, V.norm(out.value))
+        if got != want:
+            wrong.append(f'{alias} <- {V.norm(value)!r}: {got!r} instead of {want!r}')
+    ctx.expect(not wrong, v, '_validate dispatches on the cast table', '_validate does not convert by the alias of the parameter: ' + '; '.join(wrong[:4]))
     # ExcelType.cast: natives are wrapped, then converted through the dunder named after the target class
     fm = ctx.mod('xlfunctions.func_xltypes')
     cast = fm.func('ExcelType.cast')
@@ -183,13 +195,25 @@ def rule_3(ctx):
         out = it.run(fn.body)
         ctx.expect(out.end == 'return' and out.value == want_v and type(out.value) in (type(want_v), float, int, bool, str),
                    fn, f'{c}.{attr}({selfv!r})', f'{c}({selfv!r}).{attr}() yields {out.value!r}, expected {want_v!r}')
-    # arithmetic converts both operands with Number.cast
-    for name in ('__add__', '__sub__', '__mul__', '__truediv__', '__pow__'):
-        fn = fm.func(f'ExcelType.{name}')
-        casts = [c for c in flow.calls_in(fn) if ctx.res.resolve(c.func, fm) == XLT + 'Number.cast']
-        args = {ast.unparse(c.args[0]) for c in casts if c.args}
-        ctx.expect({'self', 'other'} <= args, fn, f'ExcelType.{name} converts both operands',
-                   f'{name} converts {sorted(args)} with Number.cast; numeric text/booleans/blanks on the other side are not coerced')
+    # arithmetic converts both operands: value instances of every kind on either side of each arithmetic special method
+    import operator as op_
+    from . import values as V
+    kinds = [('3', V.num(3), 3), ('"3"', V.text('3'), 3), ('TRUE', V.boolean(True), 1), ('blank', V.blank(), 0), ('2.5', V.num(2.5), 2.5)]
+    for name, sym, pyop in (('__add__', '+', op_.add), ('__sub__', '-', op_.sub), ('__mul__', '*', op_.mul), ('__truediv__', '/', op_.truediv),
+                            ('__pow__', '**', op_.pow)):
+        wrong = []
+        for la, a, na in kinds:
+            for lb, b, nb in kinds:
+                if name == '__truediv__' and nb == 0:
+                    continue
+                it = Interp(ctx.a, fm, {'a': a, 'b': b}, inline_pkg=True)
+                out = it.run([ast.parse(f'return a {sym} b').body[0]])
+                got = V.norm(out.value) if out.end == 'return' else (out.end, V.norm(out.value))
+                want = pyop(na, nb)
+                if not (isinstance(got, tuple) and got[0] == 'Number' and isinstance(got[1], (int, float)) and abs(got[1] - want) < 1e-9):
+                    wrong.append(f'{la} {sym} {lb} = {got!r} instead of {want!r}')
+        ctx.expect(not wrong, fm.cls('ExcelType'), f'ExcelType.{name} converts both operands',
+                   f'{name}: numeric text / booleans / blanks on either side must be converted to numbers: ' + '; '.join(wrong[:4]))
     ctx.floor(30, 'class x target conversions + natives + arithmetic')
 
 
@@ -359,6 +383,23 @@ def _same(a, b):
         return False
 
 
+def rule_8(ctx):
+    """=A/B as the evaluator calls OP_DIV: a divisor that converts to zero - 0, 0.0, "0", "0.0", "0e0", FALSE, a blank - gives
+    #DIV/0!, never a Python ZeroDivisionError and never a number."""
+    from . import values as V
+    f = V.registered(ctx, 'OP_DIV')
+    wrong = []
+    for label, z in (('0', V.num(0)), ('0.0', V.num(0.0)), ('"0"', V.text('0')), ('"0.0"', V.text('0.0')), ('"0e0"', V.text('0e0')),
+                     ('FALSE', V.boolean(False)), ('a blank', V.blank()), ('the native 0', 0), ('the native False', False)):
+        for ln, num in (('7', V.num(7)), ('"7"', V.text('7')), ('TRUE', V.boolean(True))):
+            out = V.call(ctx, 'OP_DIV', [num, z])
+            got = V.norm(out.value) if out.end == 'return' else (out.end, V.norm(out.value))
+            if got not in (('error', '#DIV/0!'), ('error-class', 'DivZeroExcelError')):
+                wrong.append(f'{ln} / {label} = {got!r}')
+    ctx.expect(not wrong, f.node, 'division by a converted zero gives #DIV/0! for every spelling', '; '.join(wrong[:5]))
+    ctx.floor(1, 'zero spellings')
+
+
 def rule_9(ctx):
     """Every registered function whose parameters are all declared numeric (XlNumber), called the way the evaluator calls it
     (validate_args as written, casts of the value classes as written, then the body; numpy on floats by IEEE semantics): the same
@@ -480,7 +521,7 @@ RULES = [
     ('C08.5', 'registry visibility', rule_5),
     ('C08.6', 'registering modules are imported', rule_6),
     ('C08.7', 'signature preservation', rule_7),
-    ('C08.8', 'division by a converted zero gives #DIV/0! for every spelling (shared with C07.3)', lambda ctx: c07.rule_3(ctx, only_ops=(ast.Div,))),
+    ('C08.8', 'division by a converted zero gives #DIV/0! for every spelling', rule_8),
     ('C08.9', 'numeric arguments: every spelling of a value gives the same outcome (through the registered wrapper)', rule_9),
     ('C08.10', 'arithmetic operators and & on every pair of scalar operand kinds (through the registered wrapper)', rule_10),
 ]
